@@ -481,6 +481,9 @@ impl Session {
                     }
                     num_adrreq = 0;
                     ch_mask_ctl_valid = true;
+                    // The block is complete: a later block of this downlink starts from the mask
+                    // in force, not from the edits of a block that was just rejected.
+                    channel_mask = region.channel_mask_get();
                 }
                 LinkCheckAns(..) => {
                     /* TODO: Payload contents are not consumed/handled
